@@ -6,7 +6,7 @@ EXTENDS Label
 
 EmptyKey == [kty |-> Assigned("KeyType", "Reserved"), kid |-> <<>>, alg |-> <<>>, ops |-> <<>>, biv |-> <<>>, params |-> <<>>]
 
-KNEBytes(v) == IF v.t # "bytes" THEN TypeErr ELSE IF v.b = <<>> THEN TypeErr ELSE Good(v.b)
+KNEBytes(v) == IF v.t # "bytes" THEN WrongType(v, "bstr") ELSE IF v.b = <<>> THEN Unexp("empty bstr", "non-empty bstr") ELSE Good(v.b)
 
 (* ======================= Design: decode ======================= *)
 (* key_ops is a BTreeSet<KeyOperation>: modelled as the sequence in the set's iteration order *)
@@ -15,7 +15,7 @@ OpsFrom(a, acc) ==
   IF a = <<>> THEN Good(acc)
   ELSE LET r == RegLabel_FromCbor("KeyOperation", a[1]) IN
     IF ~r.ok THEN r
-    ELSE IF \E i \in 1..Len(acc) : acc[i] = r.x THEN TypeErr      \* repeated array entry
+    ELSE IF \E i \in 1..Len(acc) : acc[i] = r.x THEN Unexp("repeated array entry", "unique array label")
     ELSE OpsFrom(Tail(a), InsertBy(RegLabelCmpDesign, r.x, acc))
 
 KeyStep(st, l, v) ==
@@ -26,29 +26,29 @@ KeyStep(st, l, v) ==
   ELSE IF IsStd(l, 3) THEN
     LET r == RegPriv_FromCbor("Algorithm", v) IN IF r.ok THEN Good([st EXCEPT !.alg = <<r.x>>]) ELSE r
   ELSE IF IsStd(l, 4) THEN
-    IF v.t # "array" THEN TypeErr
+    IF v.t # "array" THEN WrongType(v, "array")
     ELSE LET r == OpsFrom(v.a, st.ops) IN
-      IF ~r.ok THEN r ELSE IF r.x = <<>> THEN TypeErr ELSE Good([st EXCEPT !.ops = r.x])
+      IF ~r.ok THEN r ELSE IF r.x = <<>> THEN Unexp("empty array", "non-empty array") ELSE Good([st EXCEPT !.ops = r.x])
   ELSE IF IsStd(l, 5) THEN
     LET r == KNEBytes(v) IN IF r.ok THEN Good([st EXCEPT !.biv = r.x]) ELSE r
   ELSE Good([st EXCEPT !.params = Append(@, <<l, v>>)])
 
 RECURSIVE KeyFold(_, _, _)
 KeyFold(m, st, seen) ==
-  IF m = <<>> THEN (IF st.kty = Assigned("KeyType", "Reserved") THEN TypeErr ELSE Good(st))
+  IF m = <<>> THEN (IF st.kty = Assigned("KeyType", "Reserved") THEN Unexp("no kty label", "mandatory kty label") ELSE Good(st))
   ELSE LET lr == Label_FromCbor(m[1][1]) IN
     IF ~lr.ok THEN lr
     ELSE IF lr.x \in seen THEN Err("DuplicateMapKey")
     ELSE LET r == KeyStep(st, lr.x, m[1][2]) IN
       IF ~r.ok THEN r ELSE KeyFold(Tail(m), r.x, seen \cup {lr.x})
 
-Key_FromCbor(v) == IF v.t # "map" THEN TypeErr ELSE KeyFold(v.m, EmptyKey, {})
+Key_FromCbor(v) == IF v.t # "map" THEN WrongType(v, "map") ELSE KeyFold(v.m, EmptyKey, {})
 
 RECURSIVE KeysFrom(_, _)
 KeysFrom(a, acc) ==
   IF a = <<>> THEN Good(acc)
   ELSE LET r == Key_FromCbor(a[1]) IN IF ~r.ok THEN r ELSE KeysFrom(Tail(a), Append(acc, r.x))
-KeySet_FromCbor(v) == IF v.t # "array" THEN TypeErr ELSE KeysFrom(v.a, <<>>)
+KeySet_FromCbor(v) == IF v.t # "array" THEN WrongType(v, "array") ELSE KeysFrom(v.a, <<>>)
 
 (* ======================= Design: encode ======================= *)
 RECURSIVE KRestTo(_, _, _)
